@@ -247,8 +247,35 @@ def c_lod():
                              ('C18-the-labels-of-the-test-are-not-modified', 'same(test_result.test.labels, the_labels)')])
 
 
+# ---- TestStatsTests.evaluate: one iteration of the inner loop (one evaluated test result)
+def tests_inner_body(fn):
+    import ast as _ast
+    outer = [st for st in fn.body if isinstance(st, _ast.For)]
+    if len(outer) != 1:
+        raise Undecided('TestStatsTests.evaluate is no longer one loop over the task results')
+    inner = [st for st in outer[0].body if isinstance(st, _ast.For)]
+    if len(inner) != 1 or not (isinstance(inner[0].target, _ast.Name) and inner[0].target.id == 'test_result'):
+        raise Undecided('TestStatsTests.evaluate no longer has an inner loop `for test_result in ...`')
+    return inner[0].body
+
+
+def c_tests_inner():
+    S, F = 'TestOutcome.SUCCESS', 'TestOutcome.FAILURE'
+    entry = 'nf2(test_result.test.name, fingerprint(test_result.test))'
+
+    def grows(st, cond):
+        return (f'len(status_dict[{st}]) == len(old(status_dict)[{st}]) + (1 if {cond} else 0) and '
+                f'all(status_dict[{st}][j] is old(status_dict)[{st}][j] for j in range(len(old(status_dict)[{st}]))) and '
+                f'implies({cond}, status_dict[{st}][len(old(status_dict)[{st}])] is {entry})')
+    return Contract(SF, 'TestStatsTests.evaluate', params={'test_result': 'Ref:TR', 'task_name': 'Ref:Name', 'status_dict': TESTS_DICT}, signals={}, variant='one-test-result',
+                    ensures=[('C18-a-passing-result-is-listed-once-as-success', grows(S, 'verdict(test_result)')),
+                             ('C18-a-failing-result-is-listed-once-as-failure', grows(F, 'not verdict(test_result)')),
+                             ('C18-nothing-else-is-listed', 'same(status_dict[TestOutcome.MISSING], old(status_dict)[TestOutcome.MISSING]) and '
+                              'same(status_dict[TestOutcome.NOT_A_TEST], old(status_dict)[TestOutcome.NOT_A_TEST])')])
+
+
 def units(tier):
-    return ['tasks_evaluate', 'bool_tasks', 'bool_tests', 'bylabels_oracles', 'bylabels_bool', 'labels_lod', 'counts_frame', 'native']
+    return ['tasks_evaluate', 'tests_evaluate_inner', 'bool_tasks', 'bool_tests', 'bylabels_oracles', 'bylabels_bool', 'labels_lod', 'counts_frame', 'native']
 
 
 def _replay_native(name, inp):
@@ -286,6 +313,8 @@ def run_unit(unit, tier, seed, known):
         w = make_world(TESTS_DICT)
         w.add(c_bylabels('oracles'))
         res = verify_function(w, c_bylabels('__bool__'))
+    elif unit == 'tests_evaluate_inner':
+        res = verify_function(make_world(TESTS_DICT), c_tests_inner(), body_of=tests_inner_body)
     elif unit == 'labels_lod':
         res = verify_function(lod_world(), c_lod(), setup=lod_setup, body_of=lod_body)
     elif unit == 'counts_frame':
